@@ -90,6 +90,16 @@ fn interchangeable(a: &Val, b: &Val) -> Option<String> {
             if x.options() != &x.options[..] {
                 return Some("Ipv4Header::options() differs from the options field".into());
             }
+            {
+                // every read-only door into the option bytes shows the same bytes
+                use std::borrow::Borrow;
+                let o = &x.options;
+                let a: &[u8] = o.as_slice();
+                let views: [&[u8]; 4] = [&o[..], AsRef::<[u8]>::as_ref(o), Borrow::<[u8]>::borrow(o), AsRef::<etherparse::Ipv4Options>::as_ref(o).as_slice()];
+                if views.iter().any(|v| *v != a) || o.len() != a.len() || o.len_u8() as usize != a.len() || o.is_empty() != a.is_empty() {
+                    return Some(format!("Ipv4Options: deref / as_ref / borrow / len() / len_u8() / is_empty() disagree with as_slice() = {:02x?}", a));
+                }
+            }
         }
         (Val::Tcp(x), Val::Tcp(y)) => {
             if h(x) != h(y) || h(&x.options) != h(&y.options) {
@@ -100,6 +110,14 @@ fn interchangeable(a: &Val, b: &Val) -> Option<String> {
             }
             if x.options_len() != x.options.len() || x.options() != x.options.as_slice() {
                 return Some("TcpHeader::options_len()/options() differ from the options field".into());
+            }
+            {
+                let o = &x.options;
+                let a: &[u8] = o.as_slice();
+                let views: [&[u8]; 3] = [&o[..], AsRef::<[u8]>::as_ref(o), AsRef::<etherparse::TcpOptions>::as_ref(o).as_slice()];
+                if views.iter().any(|v| *v != a) || o.len() != a.len() || o.len_u8() as usize != a.len() || o.is_empty() != a.is_empty() {
+                    return Some(format!("TcpOptions: deref / as_ref / len() / len_u8() / is_empty() disagree with as_slice() = {:02x?}", a));
+                }
             }
         }
         (Val::Arp(x), Val::Arp(y)) => {
